@@ -716,7 +716,7 @@ func exec(op string) vlib.Res {
 		if isLoop(S.tombPath()) {
 			tombSnap.restore(S.tombPath())
 		}
-		return vlib.Res{Impl: S.obs(), Oracle: S.orc.boot(S, strings.Contains(fl, "t")), Tags: "nt,boot"}
+		return vlib.Res{Impl: S.obs(), Oracle: S.orc.boot(S, strings.Contains(fl, "t"), strings.Contains(fl, "s")), Tags: "nt,boot"}
 	case "damage":
 		// tomb|state: garbage; *-trunc: the existing gob stream cut in the middle
 		// (garbage when there is none); *-empty: truncated to zero length
